@@ -293,6 +293,22 @@ def rule_binding(ctx):
             ctx.obls.append(o)
 
 
+def rule_shared_typing_and_closure(ctx):
+    """Well-typedness of comparisons (integer / symbol / general injections: C06's DISPATCH:comparison table) and closedness of the formulas
+    built for inductive lemmas (C13's induction templates) are necessary for a problem file to be well-typed TFF with every variable bound."""
+    from . import c06, c13
+    for mod, fn, prefix in ((c06, "rule_comparison", "DISPATCH:comparison"), (c13, "rule_induction", "TPL:induction")):
+        sub = type(ctx)(ctx.prop, ctx.tier, ctx.facts)
+        getattr(mod, fn)(sub)
+        n = 0
+        for o in sub.obls:
+            if o["key"].startswith(prefix):
+                ctx.obls.append(o)
+                n += 1
+        if n == 0:
+            raise AnalysisGap("%s produced no %s obligations" % (fn, prefix))
+
+
 def rule_problem_rename(ctx):
     """The symbol / propositional-atom clash set is computed once from the whole problem and used for every formula: one source symbol is one
     TPTP constant in the whole file (a per-formula set renames `a` to `a__s` in some formulas only)."""
@@ -313,4 +329,4 @@ def rule_problem_rename(ctx):
     ctx.add("NS", "problem-rename:one-clash-set", ok, ctx.site(b), "Problem::rename_conflicting_symbols: " + why, construct=v)
 
 
-RULES = [rule_declarations, rule_namespaces, rule_names, rule_one_conjecture, rule_pre1, rule_binding, rule_problem_rename]
+RULES = [rule_declarations, rule_namespaces, rule_names, rule_one_conjecture, rule_pre1, rule_binding, rule_problem_rename, rule_shared_typing_and_closure]
